@@ -6,7 +6,7 @@ CONSTANTS
     Pws = {"p1", "p2"}
     Sets = {1, 2}
     Default = 2
-    PolicyOK = {"p1", "p2"}
+    PolicyOK <- MCPolicyAll
     Cap = 2
     NCap = 2
     UCap = 2
